@@ -540,6 +540,7 @@ type Engine struct {
 	curEntry  *ssa.Function
 	curPhaseB bool
 	paths     int
+	steps     int // basic blocks executed by the current symbolic run
 	errors    []string
 	siteNames map[ssa.Instruction]string
 	loopInfo  map[*ssa.Function]*loopAnalysis
